@@ -10,6 +10,7 @@ declare -A props=(
   [scanmessages_renamed]="C01 C06 C09 C10"
   [receiveuntil_restructured]="C08 C14 C16"
   [ack_arithmetic]="C08 C20"
+  [packetat_checksum_restructured]="C02 C07 C03"
 )
 for f in harmless/*.diff; do
   n=$(basename $f .diff)
